@@ -257,6 +257,10 @@ func (bqp *binaryQuantizedPoint) Id() uint64 {
 }
 
 func (bqp *binaryQuantizedPoint) IdFromKey(key []byte) (uint64, bool) {
+	// A point is stored under 'q' once it is quantised and under 'v' before that
+	if id, ok := conversion.NodeIdFromKey(key, 'q'); ok {
+		return id, true
+	}
 	return conversion.NodeIdFromKey(key, 'v')
 }
 
